@@ -16,7 +16,7 @@ BOUNDS = {"quick": "[+ network: asyncore dispatcher histories len<=4 (6 after up
                    "[+ extra cases: synchronously refused connects (len<=5), connect by event, application pings / stale pongs after up+success+ping-tick (len<=7, <=10 with a reconnect prefix)] " 
                    "all event histories of length <= 4 over {connect request, connected, socket error, peer close, disconnect request, success, failure, stream error (conflict/ack/other), ping tick, pong} "
                    "x reconnect option on/off x unconfirmed prekeys at start (passive login, key upload, reboot) (guards: events only in states where they can occur); the same with the real noise layer and handshake-done/-failed events", "thorough": "histories of length <= 8 (10 after an establishment prefix, 11 after login)"}
-OUTSIDE = ["the cryptographic Noise handshake and transport (C04, not applicable; the noise LAYER's state handling is included with protocol/worker doubles)", "real sockets and real threads (dispatcher double; keep-alive thread body run inline per tick)", "histories longer than the bound"]
+OUTSIDE = ["the cryptographic Noise handshake and transport (C04, not applicable; the noise LAYER's state handling is included with protocol/worker doubles)", "real sockets and the keep-alive's real thread (the lifecycle histories use a dispatcher double and run the keep-alive body inline per tick; the network histories run the REAL dispatchers over a socket-module double, the blocking one on a real thread)", "histories longer than the bound"]
 ASSUMPTIONS = ["the stack's loop runs after every event (detached events are delivered then)", "a dispatcher reports disconnect() by calling onDisconnected (as the asyncore and socket dispatchers do)"]
 EXPLANATION = "solver-driven bounded exploration of event histories on the real lifecycle layers against a ghost model of the statement"
 
